@@ -14,8 +14,9 @@ import Reduino.GenOb.Ops
   theorems and known findings K01a–K01j); proved part: `C01_partial`, all programs of `InF`, all N.
   C `int` overflow is undefined behaviour: the conclusion allows the C run to report `overflow` instead.
   Expression language of the fragment (W1): int/bool values, `+ - *`, bitwise `& | ^` (Python's two's-complement
-  semantics on unbounded ints; `& | ^` of two bools is a bool), unary minus, comparisons, and/or/not, conditional
-  expressions.  The operator tokens `Render` prints are tied to the transpiler's `_BIN`/`_UN`/`_CMP` tables by the
+  semantics on unbounded ints; `& | ^` of two bools is a bool), `abs(e)`, `min(a, b)` / `max(a, b)` over int-typed
+  operands (C side: the Arduino macros, with the overflow check on the negation inside `abs`), unary minus,
+  comparisons, and/or/not, conditional expressions.  The operator tokens `Render` prints are tied to the transpiler's `_BIN`/`_UN`/`_CMP` tables by the
   obligations of `GenOb/Ops.lean`.
 -/
 namespace Reduino.Props.C01
@@ -123,6 +124,17 @@ example :
                         (.write (.bin .add (.bin .band (.var "f") (.bool true)) (.bin .bor (.var "a") (.int 12))))),
                       body := some (.seq (.aug "a" .bxor (.int 12)) (.write (.bin .band (.var "a") (.int 255)))) }
     InF p = true ∧ (∃ c, tr p = .ok c) ∧ Py.run p 2 50 = .ok [.write (-2), .write 245, .write 249] := by
+  intro p
+  exact ⟨by decide, ⟨_, rfl⟩, by rfl⟩
+
+/-- non-vacuity (W1, stage 2): `abs`, `min`, `max` (a three-argument `max` is the left fold), in a constant initialiser, a
+    folded `sleep` argument and at run time -/
+example :
+    let p : Prog := { pre := .seq (.assign "a" (.abs (.neg (.int 4)))) (.seq (.assign "b" (.neg (.int 9)))
+                        (.seq (.sleep (.mm .min (.int 30) (.abs (.neg (.int 20)))))
+                              (.write (.mm .max (.mm .max (.var "b") (.int 3)) (.var "a"))))),
+                      body := some (.seq (.aug "b" .add (.int 7)) (.write (.bin .sub (.abs (.var "b")) (.mm .min (.var "a") (.var "b"))))) }
+    InF p = true ∧ (∃ c, tr p = .ok c) ∧ Py.run p 2 50 = .ok [.delay 20, .write 4, .write 4, .write 1] := by
   intro p
   exact ⟨by decide, ⟨_, rfl⟩, by rfl⟩
 
